@@ -69,6 +69,10 @@ def cases(tier, seed):
                                     devs=[[p, a] for p, a in zip(pos, alt)],
                                 )
                             )
+    # long files: frame names with two and three digits (10, 11, ..., 100, 101): order and range of frames are numeric
+    for N, k in ((10, 1), (11, 1), (12, 1), (25, 1), (25, 2), (101, 1), (120, 1), (230, 2)):
+        out.append(dict(fam="scripted", N=N, k=k, thermal=0, probes=2, screening=True, devs=[]))
+        out.append(dict(fam="scripted", N=N, k=k, thermal=1, probes=0, screening=False, devs=[[N // 2, 0]]))
     # the same histories at very small time steps (a record is valid because it was written, not because dt is "large")
     for N in (1, 2, 3, 5) if tier == "quick" else range(0, nmax + 1):
         for k in sorted({1, 2, 3, N + 1}):
